@@ -6,7 +6,7 @@
 //!
 //! case:  Q <cap|u> <ctor> <actions>      ctor: 0 = builder without handler, 1 = builder (capacity, then handler),
 //!                                        2 = builder (handler, then capacity), 3 = QueuingMetricSink::from / ::with_capacity
-//!   actions = comma list of  E<h>[e|l|u|s] (emit on handle h; payload shape: empty string / 100 kB / non-ASCII / bare number) | C<h> (clone h) | D<h> (drop h) | U<h> (h dropped by a thread unwinding from a panic)
+//!   actions = comma list of  E<h>[e|l|u|s|d] (emit on handle h; payload shape: empty string / 100 kB / non-ASCII / bare number / the same text every time) | C<h> (clone h) | D<h> (drop h) | U<h> (h dropped by a thread unwinding from a panic)
 //!             | Rk | Rz | Rn<k> | Re<id> | Ro<errno> | Rp (release the metric in the gate with Ok(len) / Ok(0) / Ok(k) / Err(id) /
 //!               Err(from_raw_os_error(errno)) / panic) | S (sample counters)
 //!             | F<h> (flush() on handle h; observation l, or le when it returned an error)
@@ -634,9 +634,11 @@ fn run_panic_soak(t: &[&str]) -> String {
 /// then cap + extra more are emitted: exactly cap of them must be accepted (the bound holds for every capacity, not
 /// only for small ones).  observation: "acc <accepted after the first> ref <refused> q <queued()>"
 fn run_bound(t: &[&str]) -> String {
-    let cap: usize = t[1].parse().unwrap();
+    // `QB u <n>`: an UNBOUNDED queue with its worker parked accepts all n metrics (n above any plausible hidden ceiling)
+    let unbounded = t[1] == "u";
+    let cap: usize = if unbounded { 0 } else { t[1].parse().unwrap() };
     let extra: usize = t[2].parse().unwrap();
-    let rig = Rig::new(Some(cap), false);
+    let rig = if unbounded { Rig::with_ctor(None, if extra % 2 == 0 { 3 } else { 1 }) } else { Rig::new(Some(cap), false) };
     let q = rig.handles[0].as_ref().unwrap().clone();
     if q.emit("first:1|c").is_err() {
         return "bad the first emit was refused".to_string();
@@ -912,6 +914,8 @@ pub fn run_case(line: &str) -> String {
                     "l" => format!("big.{}:{}|c", attempt, "9".repeat(100_000)),
                     "u" => format!("m\u{e9}tric\n{}|#\u{1F642}:,@\n", attempt),
                     "s" => format!("{}", attempt),
+                    // d: the SAME text every time (a counter incremented repeatedly): identity is position, not content
+                    "d" => "hits.same:1|c".to_string(),
                     _ => format!("metric.number.{}:1|c", attempt),
                 };
                 attempt += 1;
@@ -1027,9 +1031,16 @@ pub fn run_case(line: &str) -> String {
     // final observations
     let (dl, hd, rel, caller) = {
         let st = rig.gate.m.lock().unwrap();
+        // equal texts (payload shape d) are told apart by position: the k-th delivery of a text is the k-th acceptance of it
+        let taken: std::cell::RefCell<std::collections::HashSet<usize>> = std::cell::RefCell::new(std::collections::HashSet::new());
         let idx = |m: &String| -> String {
-            match rig.accepted.iter().position(|x| x == m) {
-                Some(i) => i.to_string(),
+            let found = rig.accepted.iter().enumerate().position(|(i, x)| x == m && !taken.borrow().contains(&i));
+            let found = found.or_else(|| rig.accepted.iter().position(|x| x == m));
+            match found {
+                Some(i) => {
+                    taken.borrow_mut().insert(i);
+                    i.to_string()
+                }
                 // a string that was never accepted: shown as hex (it may contain separators and newlines)
                 None => format!("?{}", crate::util::hex(m.as_bytes()).chars().take(80).collect::<String>()),
             }
@@ -1055,7 +1066,8 @@ pub fn run_case(line: &str) -> String {
             .handled
             .iter()
             .map(|(id, n, _)| {
-                let m = if *n >= 1 { idx(&st.log[*n - 1].0) } else { "?".to_string() };
+                // the identity of the n-th delivery as computed for the delivery log above
+                let m = if *n >= 1 { dl.get(*n - 1).map(|x: &String| x.split(':').next().unwrap_or("?").to_string()).unwrap_or_else(|| "?".to_string()) } else { "?".to_string() };
                 format!("{}:{}@{}", m, id, n)
             })
             .collect();
